@@ -5,6 +5,7 @@ import (
 	"fmt"
 	"math/rand"
 	"regexp"
+	"sort"
 	"strings"
 	"sync"
 	"time"
@@ -50,7 +51,7 @@ func (p c14) per(c *run.Ctx) (int, int) {
 	}
 	return 8, 70
 }
-func (p c14) NumCases(c *run.Ctx) int { u, o := p.per(c); return u * o }
+func (p c14) NumCases(c *run.Ctx) int  { u, o := p.per(c); return u * o }
 func (p c14) BatchSize(c *run.Ctx) int { return 12 }
 
 func sharedRootsProfile(r *rand.Rand) (gen.Profile, gen.DataCfg) {
@@ -184,6 +185,29 @@ func (p c14) Gen(c *run.Ctx, idx int) (json.RawMessage, error) {
 					cs.Pool = append(cs.Pool, v)
 				}
 			}
+		}
+	}
+	if r.Intn(3) == 0 {
+		// introspection through the cache: one operation text, the type name as variable with several
+		// values (and as literal), alone or next to a data field
+		var names []string
+		for n, d := range cu.mono.Types {
+			if !strings.HasPrefix(n, "__") && d.Kind != ast.Scalar {
+				names = append(names, n)
+			}
+		}
+		sort.Strings(names)
+		sel := pick(r, []string{"{ name kind }", "{ name kind fields { name } }", "{ name possibleTypes { name } interfaces { name } }", "{ kind name enumValues { name } inputFields { name } }"})
+		text := "query T($n: String!) { __type(name: $n) " + sel + " }"
+		if r.Intn(3) == 0 {
+			text = "query T($n: String!) { t: __type(name: $n) " + sel + " __schema { queryType { name } } }"
+		}
+		k := 2 + r.Intn(3)
+		for i := 0; i < k && len(names) > 0; i++ {
+			cs.Pool = append(cs.Pool, gen.Op{Query: text, Variables: map[string]any{"n": pick(r, names)}, Tags: []string{"introspection-var"}})
+		}
+		if len(names) > 0 {
+			cs.Pool = append(cs.Pool, gen.Op{Query: "{ __type(name: \"" + pick(r, names) + "\") " + sel + " }", Tags: []string{"introspection-literal"}})
 		}
 	}
 	if len(cs.Pool) < 2 {
